@@ -72,7 +72,8 @@ class Violation:
 
 class Outcome:
     __slots__ = ("violations", "nontrivial", "shape", "trace", "steps", "sim_time", "faults",
-                 "probes", "sample", "lists", "capped", "breaches", "digest", "fault_free", "log")
+                 "probes", "sample", "lists", "capped", "breaches", "digest", "fault_free", "log",
+                 "breach_detail")
 
     def __init__(self):
         self.violations = []
@@ -90,6 +91,7 @@ class Outcome:
         self.digest = None
         self.fault_free = True
         self.log = None
+        self.breach_detail = None
 
     def violate(self, clause, sig, detail):
         self.violations.append(Violation(clause, sig, detail))
@@ -286,6 +288,18 @@ def cmd_replay(path, as_json=False):
         data = json.load(fh)
     pid = data["property"]
     check = load_check(pid)
+    if data.get("kind") == "extra":
+        r = check.extra_checks(data["verif_seed"], data["tier"])
+        v = r.get("violation")
+        reproduced = v is not None and v["clause"] == data["clause"]
+        if as_json:
+            print("REPLAY-JSON " + json.dumps({"reproduced": reproduced, "digest": None}))
+        print(json.dumps(r, default=repr)[:2000])
+        if reproduced:
+            print("VIOLATION property=%s replay=%s" % (pid, path))
+            return 1
+        print("replay did not reproduce %s" % data["clause"])
+        return 0
     gc.disable()
     out = replay_lists(check, data["lists"])
     key = (data["clause"], tuple(data["sig"]))
@@ -426,6 +440,36 @@ def run_check(pid, tier="quick", runs=None, workers=None, verif_seed=None, write
         reported.append({"clause": viol["clause"], "sig": viol["sig"], "replay": path,
                          "replay_exact": exact, "run_index": viol["index"]})
         exit_code = 1
+    # ---- per-invocation extra part of a check (e.g. the C17 tripwire subprocess)
+    extra = getattr(check, "extra_checks", None)
+    if extra is not None and not want_digests and not errors:
+        try:
+            r = extra(verif_seed, tier)
+        except Exception as err:  # pragma: no cover
+            r = {"error": "extra_checks: %r" % (err,)}
+        if r.get("error"):
+            errors.append(r["error"])
+        else:
+            merged["evaluations"] += r.get("evaluations", 0)
+            merged["probes"].update(r.get("probes", {}))
+            merged["extra"] = r.get("info")
+            v = r.get("violation")
+            if v is not None:
+                viol = Violation(v["clause"], v["sig"], v["detail"])
+                entry = match_known(known, pid, viol)
+                if entry is not None:
+                    merged["known"][entry["id"]] += 1
+                else:
+                    os.makedirs(os.path.join(VERIF_DIR, "replays"), exist_ok=True)
+                    path = os.path.join(VERIF_DIR, "replays", "%s-%s-%d-extra.json" % (
+                        pid, v["clause"].replace(".", "_"), verif_seed))
+                    with open(path, "w") as fh:
+                        json.dump({"property": pid, "kind": "extra", "clause": v["clause"], "sig": list(v["sig"]),
+                                   "verif_seed": verif_seed, "tier": tier, "detail": v["detail"]}, fh, indent=1)
+                    lines.append("violated clause %s %s: %s" % (v["clause"], list(v["sig"]), v["detail"]))
+                    lines.append("VIOLATION property=%s replay=%s" % (pid, path))
+                    reported.append({"clause": v["clause"], "sig": list(v["sig"]), "replay": path})
+                    exit_code = 1
     for kid, count in sorted(merged["known"].items()):
         entry = [e for e in known if e.get("id") == kid][0]
         lines.append("KNOWN-FINDING: property=%s %s (%d runs; %s)" % (pid, entry.get("what", kid), count, kid))
@@ -468,6 +512,7 @@ def run_check(pid, tier="quick", runs=None, workers=None, verif_seed=None, write
             "repo": repo_rev(),
             "repo_dir": repo,
             "harness_errors": [e[-500:] for e in errors],
+            "extra_part": merged.get("extra"),
         }
         evidence = {
             "property_id": pid,
